@@ -107,12 +107,17 @@ pub fn run(ctx: &Ctx) -> Report {
         push("KSecretKey Debug", format!("{:?}", ks));
         push("KSecretKey Debug#", format!("{:#?}", ks));
         push("KSecretKey Display", format!("{}", ks));
+        push("key types, hex / width / precision flags", format!(
+            "{:x?} {:X?} {:#x?} {:#X?} {:64?} {:<64} {:.3?} {:+?} {:08?} | {:x?} {:X?} {:#x?} {:64?} | {:x?} {:#X?} | {:x?} {:#x?} | {:x?} {:#x?} {:#X?}",
+            ks, ks, ks, ks, ks, ks, ks, ks, ks, kd, kd, kd, kd, kr, kr, kv, kv, kg, kg, kg
+        ));
         push("KDateKey Debug", format!("{:?} {:#?} {}", kd, kd, kd));
         push("KRegionKey Debug", format!("{:?} {:#?} {}", kr, kr, kr));
         push("KServiceKey Debug", format!("{:?} {:#?} {}", kv, kv, kv));
         push("KSigningKey Debug", format!("{:?} {:#?} {}", kg, kg, kg));
         let resp = GetSigningKeyResponse::builder().signing_key(kg).build().unwrap();
-        push("GetSigningKeyResponse Debug", format!("{:?} {:#?}", resp, resp));
+        push("GetSigningKeyResponse Debug", format!("{:?} {:#?} {:x?} {:#X?}", resp, resp, resp, resp));
+        push("containers of keys", format!("{:#?} {:x?} {:?}", Some(&resp), vec![kg, kg], Ok::<_, ()>((ks, kd, kr, kv, kg))));
         let mut rb = GetSigningKeyResponse::builder();
         rb.signing_key(kg);
         let req = GetSigningKeyRequest::builder()
